@@ -61,6 +61,10 @@ pub enum BpOpt {
     Hit2,
     HitGe2,
     Log,
+    /// logMessage + hitCondition "2": logs on the second hit only, never stops
+    LogHit2,
+    /// logMessage + condition "false": never logs, never stops
+    LogCondFalse,
 }
 
 impl Sym {
@@ -126,6 +130,8 @@ fn opt_json(o: BpOpt) -> Value {
         BpOpt::Hit2 => json!({"hitCondition": "2"}),
         BpOpt::HitGe2 => json!({"hitCondition": ">= 2"}),
         BpOpt::Log => json!({"logMessage": "log {i}"}),
+        BpOpt::LogHit2 => json!({"logMessage": "log {i}", "hitCondition": "2"}),
+        BpOpt::LogCondFalse => json!({"logMessage": "log {i}", "condition": "false"}),
     }
 }
 
